@@ -107,7 +107,10 @@ Record Inv (s : st) : Prop := {
   inv_bound : Forall (fun t => t <= next s) (pend s);
   inv_in : has s = true -> now s < next s -> In (next s) (pend s);
   inv_inh : inh s = true ->
-            has s = true /\ now s <= next s /\ Forall (fun t => now s < t) (pend s) }.
+            has s = true /\ now s <= next s /\ Forall (fun t => now s < t) (pend s);
+  (* the last scheduled tick is still queued, or it has been handled *)
+  inv_nx : has s = true -> In (next s) (pend s) \/ exists h, hdl s = Some h /\ next s <= h;
+  inv_hle : forall h, hdl s = Some h -> h <= now s }.
 
 Lemma inv_init : Inv init.
 Proof.
@@ -127,7 +130,7 @@ Lemma inv_sched s t :
   (has s = true -> next s < t) ->
   exists s', sched_at s t = Some s' /\ Inv s' /\
              has s' = true /\ next s' = t /\ pend s' = pend s ++ [t] /\
-             now s' = now s /\ inh s' = inh s.
+             now s' = now s /\ inh s' = inh s /\ hdl s' = hdl s.
 Proof.
   intros HI Hm Hge Hle Hnx. unfold sched_at.
   destruct (t <? now s) eqn:E; [lia|]. eexists. split; [reflexivity|].
@@ -137,7 +140,7 @@ Proof.
       rewrite Forall_forall in *. intros x Hx. specialize (Hb x Hx). lia.
     - rewrite (inv_nohas s HI Eh). constructor. }
   split; [|cbn; auto 10].
-  constructor; cbn [has next pend now inh].
+  constructor; cbn [has next pend now inh hdl].
   - exact (inv_fit s HI).
   - apply Forall_app. split; [exact (inv_pend s HI)|constructor; [auto|constructor]].
   - apply sorted_app_one; [exact (inv_sorted s HI)|exact Hlt].
@@ -151,6 +154,8 @@ Proof.
   - intro Hi. destruct (inv_inh s HI Hi) as [Hh [Hn Hall]].
     split; [reflexivity|]. specialize (Hnx Hh). split; [lia|].
     apply Forall_app. split; [exact Hall|constructor; [lia|constructor]].
+  - intros _. left. apply in_or_app. right. left. reflexivity.
+  - exact (inv_hle s HI).
 Qed.
 
 (** a call either leaves the state alone or schedules one tick beyond [next] *)
@@ -179,7 +184,7 @@ Proof.
     split; [reflexivity|]. split; [exact HI|]. split; [reflexivity|]. split; [reflexivity|].
     split; [exact Hh|]. split; [exact Hin|]. split; [|split; [left; reflexivity|left; reflexivity]].
     exists []. rewrite app_nil_r. reflexivity.
-  - destruct (inv_sched s (lmgt (now s)) HI Hm) as [s' [Hs [HI' [Hh' [Hn' [Hp' [Hnow' Hinh']]]]]]]; try lia.
+  - destruct (inv_sched s (lmgt (now s)) HI Hm) as [s' [Hs [HI' [Hh' [Hn' [Hp' [Hnow' [Hinh' _]]]]]]]]; try lia.
     { intro Hh. rewrite Hh in G. cbn [andb guard_hit] in G. lia. }
     rewrite Hs. exists s', (OSched (lmgt (now s))).
     split; [reflexivity|]. split; [exact HI'|]. split; [exact Hnow'|]. split; [exact Hinh'|].
@@ -191,44 +196,67 @@ Proof.
     + exists [lmgt (now s)]. exact Hp'.
 Qed.
 
-(** TickNow: never panics in range, keeps the invariant; either a tick at this
-    edge / the next edge is pending, or the tick of this very instant is the
-    last one scheduled (pending or already handled — the C09 gap). *)
+(** TickNow (repaired): never panics in range, keeps the invariant, and leaves a
+    tick pending at this clock edge or at the next one — also when the tick of this
+    very instant has already been handled (then the next edge is scheduled). *)
 Lemma tick_now_ok s : Inv s ->
   exists s' o, tick_now f s = Some (s', o) /\ Inv s' /\
                now s' = now s /\ inh s' = inh s /\
                (exists ext, pend s' = pend s ++ ext) /\
-               (o = ODrop \/ o = OSched (lmge (now s))) /\ grows s s' /\
-               (In (lmge (now s)) (pend s') \/ In (lmgt (now s)) (pend s') \/
-                (has s' = true /\ next s' = now s /\ now s mod p = 0)).
+               (o = ODrop \/ o = OSched (lmge (now s)) \/ o = OSched (lmgt (now s))) /\ grows s s' /\
+               (In (lmge (now s)) (pend s') \/ In (lmgt (now s)) (pend s')).
 Proof.
   intro HI. pose proof (inv_fit s HI) as Hfit.
   destruct (lmge_spec p (now s) Hp1) as [Hm [Hge [_ _]]].
+  destruct (lmgt_spec p (now s) Hp1) as [Hmg [Hgt _]].
   pose proof (lmge_le_lmgt (now s)) as Hlg.
-  unfold tick_now, tick_now_g.
-  destruct (has s && guard_hit GGe (next s) (now s)) eqn:G.
-  - apply andb_true_iff in G. destruct G as [Hh G]. cbn [guard_hit] in G.
+  unfold tick_now.
+  destruct (has s && (now s <? next s)) eqn:G.
+  - (* a later tick is pending: it is the one at the next edge *)
+    apply andb_true_iff in G. destruct G as [Hh G].
+    assert (Hlt : now s < next s) by lia.
     exists s, ODrop.
     split; [reflexivity|]. split; [exact HI|]. split; [reflexivity|]. split; [reflexivity|].
     split; [exists []; rewrite app_nil_r; reflexivity|]. split; [left; reflexivity|].
     split; [left; reflexivity|].
     pose proof (inv_le s HI Hh) as Hle. pose proof (inv_mul s HI Hh) as Hmul.
-    destruct (N.eq_dec (next s) (now s)) as [E|E].
-    + right. right. rewrite <- E. auto.
-    + assert (Hlt : now s < next s) by lia.
-      pose proof (inv_in s HI Hh Hlt) as Hin.
-      pose proof (multiple_gt_ge_lmgt (now s) (next s) Hmul Hlt).
-      right. left. assert (E2 : next s = lmgt (now s)) by lia. rewrite <- E2. exact Hin.
+    pose proof (inv_in s HI Hh Hlt) as Hin.
+    pose proof (multiple_gt_ge_lmgt (now s) (next s) Hmul Hlt).
+    right. assert (E2 : next s = lmgt (now s)) by lia. rewrite <- E2. exact Hin.
   - rewrite (this_tick_fit _ Hfit).
-    destruct (inv_sched s (lmge (now s)) HI Hm) as [s' [Hs [HI' [Hh' [Hn' [Hp' [Hnow' Hinh']]]]]]]; try lia.
-    { intro Hh. rewrite Hh in G. cbn [andb guard_hit] in G. lia. }
-    rewrite Hs. exists s', (OSched (lmge (now s))).
-    split; [reflexivity|]. split; [exact HI'|]. split; [exact Hnow'|]. split; [exact Hinh'|].
-    split; [exists [lmge (now s)]; exact Hp'|]. split; [right; reflexivity|].
-    split.
-    { right. rewrite Hn'. split; [exact Hh'|]. split; [|exact Hp'].
-      intro Hh. rewrite Hh in G. cbn [andb guard_hit] in G. lia. }
-    left. rewrite Hp'. apply in_or_app. right. left. reflexivity.
+    destruct (has s && (next s =? now s)) eqn:G2.
+    + apply andb_true_iff in G2. destruct G2 as [Hh G2]. apply N.eqb_eq in G2.
+      destruct (handled_now s) eqn:Ehd.
+      * (* the tick of this instant already ran: schedule the next edge *)
+        rewrite (next_tick_fit _ Hfit).
+        destruct (inv_sched s (lmgt (now s)) HI Hmg) as [s' [Hs [HI' [Hh' [Hn' [Hp' [Hnow' [Hinh' _]]]]]]]]; try lia.
+        rewrite Hs. exists s', (OSched (lmgt (now s))).
+        split; [reflexivity|]. split; [exact HI'|]. split; [exact Hnow'|]. split; [exact Hinh'|].
+        split; [exists [lmgt (now s)]; exact Hp'|]. split; [right; right; reflexivity|].
+        split.
+        { right. rewrite Hn'. split; [exact Hh'|]. split; [intros _; lia|exact Hp']. }
+        right. rewrite Hp'. apply in_or_app. right. left. reflexivity.
+      * (* the tick of this instant is still queued *)
+        exists s, ODrop.
+        split; [reflexivity|]. split; [exact HI|]. split; [reflexivity|]. split; [reflexivity|].
+        split; [exists []; rewrite app_nil_r; reflexivity|]. split; [left; reflexivity|].
+        split; [left; reflexivity|].
+        pose proof (inv_mul s HI Hh) as Hmul. rewrite G2 in Hmul.
+        assert (Heq : lmge (now s) = now s).
+        { pose proof (multiple_ge_ge_lmge (now s) (now s) Hmul (N.le_refl _)). lia. }
+        left. rewrite Heq, <- G2.
+        destruct (inv_nx s HI Hh) as [Hin|[h [Hh1 Hh2]]]; [exact Hin|].
+        pose proof (inv_hle s HI h Hh1). unfold handled_now in Ehd. rewrite Hh1 in Ehd. lia.
+    + (* nothing scheduled, or the last scheduled tick is in the past *)
+      destruct (inv_sched s (lmge (now s)) HI Hm) as [s' [Hs [HI' [Hh' [Hn' [Hp' [Hnow' [Hinh' _]]]]]]]]; try lia.
+      { intro Hh. rewrite Hh in G, G2. cbn [andb] in G, G2. lia. }
+      rewrite Hs. exists s', (OSched (lmge (now s))).
+      split; [reflexivity|]. split; [exact HI'|]. split; [exact Hnow'|]. split; [exact Hinh'|].
+      split; [exists [lmge (now s)]; exact Hp'|]. split; [right; left; reflexivity|].
+      split.
+      { right. rewrite Hn'. split; [exact Hh'|]. split; [|exact Hp'].
+        intro Hh. rewrite Hh in G, G2. cbn [andb] in G, G2. lia. }
+      left. rewrite Hp'. apply in_or_app. right. left. reflexivity.
 Qed.
 
 Lemma do_call_ok k s : Inv s ->
@@ -258,7 +286,7 @@ Qed.
 (** what a legal Pop does *)
 Lemma pop_ok s s' e : Inv s -> step f s Pop = Ok s' e ->
   exists t r, pend s = t :: r /\ e = EPop t /\ inh s = false /\
-              s' = mk_st (has s) (next s) r t true.
+              s' = mk_st (has s) (next s) r t true (Some t).
 Proof.
   intros HI H. cbn [step] in H.
   destruct (inh s) eqn:Ei; [discriminate|].
@@ -277,7 +305,7 @@ Proof.
     destruct (t <? now s) eqn:Et; [discriminate|].
     destruct (forallb (fun u => t <=? u) (pend s)) eqn:Ef; [|discriminate].
     inversion H; subst. clear H. apply forallb_le_Forall in Ef.
-    constructor; cbn [has next pend now inh] in *.
+    constructor; cbn [has next pend now inh hdl] in *.
     + exact Hfit.
     + pose proof (inv_pend s HI) as Hpd. rewrite Forall_forall in *.
       intros x Hx. specialize (Hpd x Hx). specialize (Ef x Hx). split; [lia|tauto].
@@ -288,6 +316,8 @@ Proof.
     + exact (inv_bound s HI).
     + intros Hh Hlt. apply (inv_in s HI Hh). lia.
     + discriminate.
+    + exact (inv_nx s HI).
+    + intros h Hh. pose proof (inv_hle s HI h Hh). lia.
   - (* Call *)
     cbn [step] in H. destruct (do_call_ok k s HI) as [s1 [o [H1 [H2 _]]]].
     rewrite H1 in H. inversion H; subst. exact H2.
@@ -301,7 +331,7 @@ Proof.
     inversion Hb as [|? ? Hb1 Hb']; subst.
     assert (Hh : has s = true).
     { destruct (has s) eqn:Eh; [reflexivity|]. pose proof (inv_nohas s HI Eh). congruence. }
-    constructor; cbn [has next pend now inh].
+    constructor; cbn [has next pend now inh hdl].
     + exact Hfit.
     + rewrite Forall_forall in *. intros x Hx. specialize (Hpd' x Hx). specialize (Hall x Hx).
       split; [lia|tauto].
@@ -313,14 +343,19 @@ Proof.
     + intros _ Hlt. pose proof (inv_in s HI Hh) as Hin. rewrite Ep in Hin.
       destruct Hin as [E|Hin]; [lia|lia|exact Hin].
     + intros _. repeat split; auto.
+    + intros _. destruct (inv_nx s HI Hh) as [Hin|[h [Hh1 Hh2]]].
+      * rewrite Ep in Hin. destruct Hin as [E|Hin]; [|left; exact Hin].
+        right. exists t. split; [reflexivity|lia].
+      * right. exists t. split; [reflexivity|]. pose proof (inv_hle s HI h Hh1). lia.
+    + intros h Hh'. injection Hh' as <-. lia.
   - (* Ret *)
     cbn [step] in H. destruct (inh s) eqn:Ei; cbn [negb] in H; [|discriminate].
     destruct b.
     + destruct (tick_later_ok s HI) as [s1 [o [H1 [H2 [H3 [H4 _]]]]]].
       rewrite H1 in H. inversion H; subst. clear H.
-      destruct H2. constructor; cbn [has next pend now inh] in *; auto; try discriminate.
+      destruct H2. constructor; cbn [has next pend now inh hdl] in *; auto; try discriminate.
     + inversion H; subst. clear H.
-      destruct HI. constructor; cbn [has next pend now inh] in *; auto; try discriminate.
+      destruct HI. constructor; cbn [has next pend now inh hdl] in *; auto; try discriminate.
 Qed.
 
 (** ------------------------------------------------------------------ *)
@@ -572,11 +607,10 @@ Proof.
   apply multiple_gt_ge_lmgt; [exact Hm|lia].
 Qed.
 
-(** TickNow: where the requested tick ends up *)
+(** TickNow: after the call a tick at this clock edge or at the next one is queued *)
 Lemma tick_now_where ops1 s1 evs1 :
   exec f init (ops1 ++ [Call KTickNow]) = Some (s1, evs1) ->
-  In (lmge (now s1)) (pend s1) \/ In (lmgt (now s1)) (pend s1) \/
-  (has s1 = true /\ next s1 = now s1 /\ now s1 mod p = 0).
+  In (lmge (now s1)) (pend s1) \/ In (lmgt (now s1)) (pend s1).
 Proof.
   intro H1. destruct (exec_app _ _ _ _ _ H1) as [s0 [e1 [e2 [Ha [Hb _]]]]].
   pose proof (inv_exec _ _ _ _ inv_init Ha) as HI0.
